@@ -72,6 +72,11 @@ class C05(F.Spec):
         # a network layer that refuses a send once (operation in progress / queue full) and accepts the retry of the
         # parked bytes: the device's own delayed transmissions must not count as server activity
         flaky = rng.choice([0, 0, .3, 1.0])
+        # a server that falls silent but whose host still resolves and accepts TCP connections (and possibly drops them
+        # again): a new connection is not a received message, the "nothing received for more than 62 s" clause still applies
+        accepting = rng.choice([0, 1, 1]) if silent_at else 0
+        drop_every = rng.choice([0, 0, 7000, 15000, 30000]) if accepting else 0
+        next_drop = (silent_at or 0) * 1000 + drop_every
         while t < end:
             step = rng.choice([100, 300, 700, 1000])
             if flaky and rng.random() < flaky:
@@ -83,9 +88,26 @@ class C05(F.Spec):
                 next_tx = t + traffic
             if silent_at is None or t < silent_at * 1000:
                 ops.append("pingreply")          # the driver answers a pending ping (see harness)
+            elif accepting:
+                ops += ["dnsreply 10.0.0.7", "tcpup"]     # no-ops unless the device asked for them
+                if drop_every and t >= next_drop:
+                    ops.append("tcpdown")
+                    next_drop = t + drop_every
         return F.Case("scen%d-T%d-%s%s" % (i, T, "silent" if silent_at else "ok", "-traffic" if traffic else ""), ops,
-                      {"tags": ["kind:scenario", "T:%d" % T, "traffic:%d" % (1 if traffic else 0), "flaky:%s" % flaky], "kind": "scenario", "T": T,
+                      {"tags": ["kind:scenario", "T:%d" % T, "traffic:%d" % (1 if traffic else 0), "flaky:%s" % flaky, "accepting:%d" % accepting], "kind": "scenario", "T": T,
                        "silent_at": silent_at})
+
+    def extra_static(self, tier):
+        """theorem c05_silent_history_restarts models last_response with one writer (a received call): the source must have
+        exactly that one assignment, inside supla_esp_on_remote_call_received"""
+        import os, re, common as C
+        src = open(os.path.join(C.REPO, "src/user/supla_esp_devconn.c")).read()
+        writes = [m.start() for m in re.finditer(r"last_response\s*=[^=]", src)]
+        m = re.search(r"supla_esp_on_remote_call_received\s*\([^)]*\)\s*\{", src)
+        ok = len(writes) == 1 and m is not None and m.end() < writes[0] and \
+            "\n}" in src[writes[0]:] and "\n}" not in src[m.end():writes[0]]
+        return [("last_response has one writer, in supla_esp_on_remote_call_received (C05.3b)", ok,
+                 "" if ok else "assignments of devconn->last_response found at offsets %s" % writes)]
 
     def derive_model(self, case, raw):
         ops, exp = [], []
@@ -114,6 +136,8 @@ class C05(F.Spec):
                 last_tx = now
             if "PINGREPLY" in g or t[0] == "msg":
                 last_rx = now
+            if "TCPDOWN" in g and recovered is None:
+                recovered = now          # the peer closed the connection: what follows is not the device's own timing
             rec = any(x in ("DISCONNECT", "RESTART") for x in g)
             if rec and recovered is None:
                 recovered = now
